@@ -14,6 +14,8 @@ usage: tools/mutsweep.py PID [--jobs N] [--max M] [--out FILE] [--only REGEX]
 import argparse, json, os, queue, re, shutil, subprocess, sys, tempfile, concurrent.futures as cf
 
 SLOTS = queue.Queue()
+SWAP_ADJ = False
+DELETE = True
 
 REPO = os.environ.get("VERIF_REPO_SRC", "/repo")
 VERIF = os.path.dirname(os.path.dirname(os.path.abspath(__file__)))
@@ -39,11 +41,28 @@ OPS = [
 # the wrong one of two similar names (one occurrence at a time)
 PAIRS = [("l", "r"), ("vl", "vr"), ("a", "b"), ("i", "j"), ("x", "y"), ("u", "v"), ("left", "right"), ("begin", "end"), ("self", "rhs"), ("lhs", "rhs"),
          ("a1", "a2"), ("m1", "m2"), ("x0", "y0"), ("n", "m"), ("res", "a"), ("item", "next"), ("pos", "sz"), ("p", "sz"), ("dims", "idx"), ("d", "r"), ("ort", "par")]
+PAIR_OPS = []
 for _a, _b in PAIRS:
-    OPS.append((r"(?<![\w.])%s\b(?!\s*[:(!])" % _a, _b))
-    OPS.append((r"(?<![\w.])%s\b(?!\s*[:(!])" % _b, _a))
-    OPS.append((r"(?<=\.)%s\b(?!\s*\()" % _a, _b))
-    OPS.append((r"(?<=\.)%s\b(?!\s*\()" % _b, _a))
+    PAIR_OPS.append((r"(?<![\w.])%s\b(?!\s*[:(!])" % _a, _b))
+    PAIR_OPS.append((r"(?<![\w.])%s\b(?!\s*[:(!])" % _b, _a))
+    PAIR_OPS.append((r"(?<=\.)%s\b(?!\s*\()" % _a, _b))
+    PAIR_OPS.append((r"(?<=\.)%s\b(?!\s*\()" % _b, _a))
+# third set: forced branches, swapped call arguments, dropped negations/abs, narrowing casts, lost results
+DEEP_OPS = [
+    (r"\bif (?!let\b)[^{}]+ \{", "if true {"), (r"\bif (?!let\b)[^{}]+ \{", "if false {"), (r"\bwhile (?!let\b)[^{}]+ \{", "while false {"),
+    (r"\b(\w+)\(([^(),]+), ([^(),]+)\)", r"\1(\3, \2)"),
+    (r"\.abs\(\)", ""), (r"(?<=[(=,] )-(?=[a-z(])", ""), (r"(?<=\()-(?=[a-z(])", ""),
+    (r"\bas u64\b", "as u32"), (r"\bas i64\b", "as i32"), (r"\bas u128\b", "as u64"), (r"\bas i128\b", "as i64"), (r"\bas usize\b", "as u32 as usize"),
+    (r"\bSome\([^()]*\)", "None"),
+    (r"Ordering::Less", "Ordering::Greater"), (r"Ordering::Greater", "Ordering::Less"), (r"Ordering::Equal", "Ordering::Less"),
+    (r"\.first\(\)", ".last()"), (r"\.last\(\)", ".first()"), (r"\.first_mut\(\)", ".last_mut()"), (r"\.last_mut\(\)", ".first_mut()"),
+    (r"\bcontinue\b", "break"), (r"\bbreak\b", "continue"),
+    (r"\b2\.0\b", "1.0"), (r"\b0\.0\b", "1.0"), (r"\b1\.0\b", "0.0"), (r"\b1e-9\b", "1e-3"),
+    (r"\b2\b", "3"), (r"\b64\b", "63"), (r"\b32\b", "31"), (r"\b63\b", "64"), (r"\b31\b", "32"), (r"\b10\b", "9"),
+    (r"saturating_sub", "wrapping_sub"), (r"checked_sub", "checked_add"), (r"\.pop\(\)", ".last().cloned()"), (r"\.take\(\)", ".clone()"),
+    (r"\.len\(\)", ".len() - 1"), (r"\.is_empty\(\)", ".len() == 1"), (r"\.is_some\(\)", ".is_none()"), (r"\.is_none\(\)", ".is_some()"),
+    (r"\bswap\(([^(),]+), ([^(),]+)\);", ";"),
+]
 
 
 def crate_of(path):
@@ -57,7 +76,8 @@ def crate_of(path):
     return None
 
 
-def mutants_of(path, only=None):
+def mutants_of(path, only=None, ops=None):
+    ops = OPS if ops is None else ops
     src = open(os.path.join(REPO, path)).read().split("\n")
     out = []
     in_test = False
@@ -66,16 +86,20 @@ def mutants_of(path, only=None):
         st = code.strip()
         if "#[cfg(test)]" in line:
             in_test = True
-        if in_test or not st or st.startswith(("#", "use ", "pub use", "mod ", "//", "///", "debug_assert", "assert")):
+        if in_test or not st or st.startswith(("#", "use ", "pub use", "mod ", "//", "///", "debug_assert", "assert")) or re.match(r"(pub(\([a-z]+\))? )?(const |unsafe )?(fn|type|impl|trait|struct|enum)\b", st):
             continue
         if only and not re.search(only, line):
             continue
-        for pat, rep in OPS:
+        for pat, rep in ops:
             for m in re.finditer(pat, code):
-                new = code[: m.start()] + rep + code[m.end():] + line[len(code):]
+                new = code[: m.start()] + m.expand(rep) + code[m.end():] + line[len(code):]
                 if new != line:
                     out.append((path, ln, line, new, "%s -> %s" % (m.group(0), rep or "(removed)")))
+        if SWAP_ADJ and ln + 1 < len(src) and st.endswith(";") and src[ln + 1].strip().endswith(";") and not st.startswith(("let ", "return", "break", "continue", "}")) and not src[ln + 1].strip().startswith(("let ", "return", "break", "continue", "}")) and len(line) - len(line.lstrip()) == len(src[ln + 1]) - len(src[ln + 1].lstrip()) and st != src[ln + 1].strip():
+            out.append((path, ln, line, src[ln + 1], "swap-next with the following statement"))
         # statement deletion: a plain call statement
+        if not DELETE:
+            continue
         if re.match(r"^[\w\.\[\]\(\)&\*:<>, ]+\(.*\);$", st) and not st.startswith(("let ", "return", "break", "continue")):
             out.append((path, ln, line, line[: len(line) - len(line.lstrip())] + "// " + st, "statement removed"))
     return out
@@ -93,7 +117,10 @@ def run_one(args):
         lines = open(f).read().split("\n")
         if lines[ln] != old:
             return idx, "skip", ""
-        lines[ln] = new
+        if desc.startswith("swap-next"):
+            lines[ln], lines[ln + 1] = lines[ln + 1], lines[ln]
+        else:
+            lines[ln] = new
         open(f, "w").write("\n".join(lines))
         env = dict(os.environ, CARGO_NET_OFFLINE="true", CARGO_TARGET_DIR="/tmp/mutsweep-target-%d" % slot)
         r = subprocess.run(["timeout", "-k", "5", os.environ.get("MUT_TEST_TIMEOUT", "150"), "cargo", "test", "--offline", "-q"] + [x for c_ in crate.split(",") for x in ("-p", c_)], cwd=w, env=env, capture_output=True, text=True, timeout=900)
@@ -125,7 +152,13 @@ def main():
     ap.add_argument("--out", default=None)
     ap.add_argument("--only", default=None)
     ap.add_argument("--files", default=None, help="comma-separated override of the files to mutate")
+    ap.add_argument("--ops", default="base,pairs", help="comma-separated operator sets: base, pairs, deep")
     a = ap.parse_args()
+    global SWAP_ADJ, DELETE
+    sets = a.ops.split(",")
+    ops = (OPS if "base" in sets else []) + (PAIR_OPS if "pairs" in sets else []) + (DEEP_OPS if "deep" in sets else [])
+    SWAP_ADJ = "deep" in sets
+    DELETE = "base" in sets
     for j in range(a.jobs):
         SLOTS.put(j)
     files = None
@@ -138,7 +171,7 @@ def main():
     files = [f for f in files if f.endswith(".rs") and "/tests/" not in f and os.path.exists(os.path.join(REPO, f))]
     muts = []
     for f in files:
-        muts.extend(mutants_of(f, a.only))
+        muts.extend(mutants_of(f, a.only, ops))
     if a.max:
         muts = muts[: a.max]
     print("%s: %d mutants over %s" % (a.pid, len(muts), files), flush=True)
